@@ -1,12 +1,13 @@
 """C11 - compilation gives schema constructs their RFC 7950 meaning"""
-from props import comps_iff, comps_restrict, comps_flatten
+from props import comps_iff, comps_restrict, comps_flatten, comps_depset
 
 PID = "C11"
 LEVEL = "proof"
 
 
 def components():
-    return [comps_iff.IffCompile(), comps_iff.IffValue(), comps_restrict.RangeDirect(), comps_restrict.RangeChain()]
+    return [comps_iff.IffCompile(), comps_iff.IffValue(), comps_restrict.RangeDirect(), comps_restrict.RangeChain(),
+            comps_depset.DepSets()]
 
 
 def oracles_():
@@ -31,6 +32,7 @@ MANIFEST = {
             "refutation theorems and replayed witnesses: 1..9..3 / 127 | max / decimal64 - / +5 are accepted, 3..7 under "
             "1..5 | 6..9 / 0..min / 1.50 are rejected. The former defects (1 50 widened its base; 1|| read beyond the parts "
             "array) are fixed and kept as regression Examples. "
+            "(3) dependency sets (Properties_C11_depset.v): C11_depset_closed. "
             "Tie: extracted models vs lys_compile_iffeature / lysc_iffeature_value and vs lys_compile_type_range called "
             "directly and through lys_parse_mem on generated typedef chains (depth 1-4, int8..uint64, decimal64 fd 1/2/9/18, "
             "string / binary length) with lyd_value_validate probes at every boundary +-1 (T2). "
@@ -53,8 +55,19 @@ MANIFEST = {
             "lys_compile_type, lyplg_type_validate_range (ly_parse_int / ly_parse_uint from slice types). NOT modelled in Coq: "
             "the expansion of typedef / grouping / uses / refine / augment / submodule / deviation (lys_compile_node*, "
             "schema_compile_amend.c), pattern restrictions, enum / bits restrictions, load order - these are covered by "
-            "search only (comps_flatten.py); in particular the dependency sets of lys_unres_dep_sets_create (which modules are "
-            "recompiled when a feature changes) have no Coq model - history independence is oracle-level. In history-indep a "
+            "search only (comps_flatten.py). History independence as a whole is oracle-level (history-indep); its kernel, the "
+            "dependency set of lys_unres_dep_sets_create (which modules are recompiled when a module changes), is modelled in "
+            "DepSet.v (all modules implemented, no submodules) and tied by the component depset (families of 2-7 modules with "
+            "random imports / features / data / groupings / typedefs / augments / deviations, exact set and order): "
+            "C11_depset_closed proves that the set computed for a module contains every module with data nodes or features "
+            "connected to it by import chains (either direction) through modules lys_has_dep_mods lets the traversal pass "
+            "(hypothesis: the model's fuel, number of modules + 1, is not exhausted - not proved, never seen). That these "
+            "chains are ALL the ways a compiled tree can depend on another module is the modelling assumption behind "
+            "lys_has_dep_mods (checked by history-indep, which found the typedef-only / deviation-only gaps fixed by 64300ce). "
+            "Statements living in submodules resolve prefixes in the submodule's own imports: flatten-equiv moves augments of "
+            "fb / deviations of fd into submodules that import fa under a prefix the module does not define or uses for "
+            "another module, history-indep has the clash variant for if-feature / when / leafref / identityref / typedef "
+            "references. In history-indep a "
             "module whose default refers to an identity is loaded after the module of the identity (libyang takes identities "
             "of implemented modules only, by design), and with LY_CTX_EXPLICIT_COMPILE a failing call only comes when nothing "
             "is pending (the revert of pending work is listed under C09: ctx-explicit-revert-pending). In the compiled prints compared by flatten-equiv the when statements are removed "
